@@ -1523,12 +1523,19 @@ func TestVerifC11(t *testing.T) {
 			if !e.dead && e.quiesce(self) != nil {
 				e.unholdBg()
 			}
+			prev := ""
 			for i := 0; i < 50; i++ {
 				e.releaseAll()
 				snap := e.quiesce(self)
 				if snap == nil || len(snap.flushers) == 0 {
 					break
 				}
+				// a flusher that cannot quit (parked for good on a changed tree): two rounds without any change are enough
+				now := strings.Join(snap.workers, ",") + "|" + strings.Join(snap.flushers, ",")
+				if i >= 3 && now == prev {
+					break
+				}
+				prev = now
 				timex.VerifAdvance(iv*idleRound*2 + 1)
 				e.tick()
 			}
